@@ -220,7 +220,8 @@ class SweepWatch:
     (<= 1e-14 relative) the remaining sweeps of `exact=True` (50 000 of them) cannot move it; a non-finite V
     stays non-finite.  Returning True there yields the same result as running the loop to its end."""
 
-    def __init__(self):
+    def __init__(self, blowup=float("inf")):
+        self.blowup = blowup
         self.prev = None
         self.n = 0
         self.why = "library"
@@ -235,6 +236,9 @@ class SweepWatch:
             self.why = "fixed-point"
             return True
         self.prev = V.copy()
+        if float(np.max(np.abs(V))) > self.blowup:  # coordinate descent never leaves the start's sublevel set
+            self.why = "diverged"
+            return True
         if self.n >= HALS_SWEEP_CAP:
             self.why = "cap"
             return True
@@ -300,7 +304,8 @@ class C13(Check):
         "allowance for fista's documented floor x >= 1e-8); ADMM 1e-9 * scale; non-negativity exact (x >= 0)",
         "conditioning guard cond(U'U) <= 50 via numpy.linalg.eigvalsh (trusted), singularity via exact determinant",
         "'run to convergence': hals exact=True / (n_iter_max=50000, tol=1e-16); fista n_iter_max=3000, tol=1e-12; active-set defaults. "
-        "The hals callback stops the loop once a sweep moves V by <= 1e-14 relative (deterministic sweep map: further sweeps are no-ops)",
+        "The hals callback stops the loop once a sweep moves V by <= 1e-14 relative (deterministic sweep map: further sweeps are no-ops), "
+        "or aborts it when |V| exceeds 1e8 * max(1,|UtM|) (the returned iterate is then judged as it is)",
         "a fista result failing the oracle is re-run with tol=0 (own stopping rule disabled, 3000 iterations) only to classify the "
         "failure as premature stop vs. wrong fixed point",
     ]
@@ -407,7 +412,7 @@ class C13(Check):
                           ("n_iter_max=50000,tol=1e-16", dict(n_iter_max=50000, tol=1e-16), pair)]
             for opts, kw, sts in hals_modes:
                 for slab, sv in sts:
-                    watch = SweepWatch()
+                    watch = SweepWatch(blowup=1e8 * max(1.0, float(np.max(np.abs(C)))))
                     try:
                         with contextlib.redirect_stdout(io.StringIO()):
                             X = hals_nnls(C.copy(), G.copy(), V=mk(sv), sparsity_coefficient=l1, ridge_coefficient=l2,
